@@ -1,4 +1,4 @@
-(** Model of src/epd7in5b_v2/mod.rs — STUB, not yet transcribed. *)
+(** Model of src/epd7in5b_v2/mod.rs (7.5 inch B v2/v3: black, white, red). *)
 From Coq Require Import List NArith Bool.
 From EPD Require Import Iface Ops Drv.Luts.
 Import ListNotations.
@@ -8,11 +8,137 @@ Open Scope m_scope.
 Module Epd7in5b_v2.
 Definition WIDTH : N := 800.
 Definition HEIGHT : N := 480.
+Definition NUM_DISPLAY_BITS : N := WIDTH / 8 * HEIGHT.
+Definition IS_BUSY_LOW := true.
 
-Definition init : M unit := ret tt.
+(** interface.wait_until_idle_with_cmd(spi, delay, IS_BUSY_LOW, Command::GetStatus) *)
+Definition wait_until_idle : M unit := wait_idle_cmd IS_BUSY_LOW 0x71.
 
-Definition exec (k : N) (o : op) : option (M rval) := None.
+Definition send_resolution : M unit :=
+  let w := WIDTH in
+  let h := HEIGHT in
+  cmd 0x61 ;;
+  data [u8 (shr w 8)] ;;
+  data [u8 w] ;;
+  data [u8 (shr h 8)] ;;
+  data [u8 h].
+
+Definition init : M unit :=
+  reset 200000 2000 ;;
+  cmd_with_data 0x01 [0x07; 0x07; 0x3F; 0x3F] ;;
+  cmd 0x04 ;;
+  wait_until_idle ;;
+  cmd_with_data 0x00 [0x0F] ;;
+  cmd_with_data 0x61 [0x03; 0x20; 0x01; 0xE0] ;;
+  cmd_with_data 0x15 [0x00] ;;
+  cmd_with_data 0x50 [0x11; 0x07] ;;
+  cmd_with_data 0x60 [0x22] ;;
+  cmd_with_data 0x65 [0x00; 0x00; 0x00; 0x00] ;;
+  wait_until_idle.
+
+(** the three-colour methods take the buffer as a data expression: [update_color_frame] passes
+    them one of its two buffers each *)
+Definition update_achromatic_frame (black : dexp) : M unit :=
+  cmd 0x10 ;;
+  data_e black ;;
+  cmd 0x11.
+
+Definition update_chromatic_frame (chromatic : dexp) : M unit :=
+  cmd 0x13 ;;
+  data_e chromatic ;;
+  cmd 0x11 ;;
+  wait_until_idle.
+
+Definition update_color_frame (black chromatic : dexp) : M unit :=
+  update_achromatic_frame black ;;
+  update_chromatic_frame chromatic.
+
+Definition sleep : M unit :=
+  wait_until_idle ;;
+  cmd 0x02 ;;
+  wait_until_idle ;;
+  cmd_with_data 0x07 [0xA5].
+
+Definition update_frame (k len : N) : M unit :=
+  wait_until_idle ;;
+  (* &buffer[..NUM_DISPLAY_BITS] is evaluated (and may panic) before the command goes out *)
+  assert (NUM_DISPLAY_BITS <=? len) ;;
+  cmd_with_data_e 0x10 (DArg k 0 0 NUM_DISPLAY_BITS) ;;
+  (* &buffer[NUM_DISPLAY_BITS..] cannot panic any more *)
+  cmd_with_data_e 0x13 (DArg k 0 NUM_DISPLAY_BITS (len - NUM_DISPLAY_BITS)) ;;
+  cmd 0x11.
+
+Definition update_partial_frame (k len x y width height : N) : M unit := panic.
+
+Definition display_frame : M unit :=
+  wait_until_idle ;;
+  cmd 0x12.
+
+Definition update_and_display_frame (k len : N) : M unit :=
+  update_frame k len ;;
+  cmd 0x12.
+
+Definition clear_frame : M unit :=
+  wait_until_idle ;;
+  send_resolution ;;
+  cmd 0x10 ;;
+  data_x_times 0xFF (WIDTH / 8 * HEIGHT) ;;
+  cmd 0x13 ;;
+  data_x_times 0x00 (WIDTH / 8 * HEIGHT) ;;
+  cmd 0x11 ;;
+  cmd 0x12.
+
+Definition set_lut (r : option N) : M unit := panic.
+
+Definition update_partial_frame2 (k len x y width height : N) : M unit :=
+  wait_until_idle ;;
+  (* if buffer.len() as u32 != width / 8 * height { }  -- empty body, but the product is checked *)
+  _ <- mul32 (width / 8) height ;;
+  let hrst_upper := shr (u8 (x / 8)) 5 in
+  let hrst_lower := u8 (shl (x / 8) 3) in
+  xw <- add32 x width ;;
+  xe <- sub32 (xw / 8) 1 ;;
+  let hred_upper := shr (u8 xe) 5 in
+  let hred_lower := bor (u8 (shl xe 3)) 7 in
+  let vrst_upper := u8 (shr y 8) in
+  let vrst_lower := u8 y in
+  yh <- add32 y height ;;
+  ye <- sub32 yh 1 ;;
+  let vred_upper := u8 (shr ye 8) in
+  let vred_lower := u8 ye in
+  let pt_scan := 0x01 in
+  cmd 0x91 ;;
+  cmd_with_data 0x90 [hrst_upper; hrst_lower; hred_upper; hred_lower; vrst_upper; vrst_lower;
+                      vred_upper; vred_lower; pt_scan] ;;
+  let half := len / 2 in
+  cmd_with_data_e 0x10 (DArg k 0 0 half) ;;
+  cmd_with_data_e 0x13 (DArg k 0 half (len - half)) ;;
+  cmd 0x12 ;;
+  wait_until_idle ;;
+  cmd 0x92.
+
+Definition exec (k : N) (o : op) : option (M rval) :=
+  match o with
+  | OSleep => unit_ sleep
+  | OWakeUp => unit_ init
+  | OSetBg c => unit_ (modify (set_bg c))
+  | OGetBg => Some (s <- get ;; ret (RColor (bg s)))
+  | OWidth => Some (ret (RNum WIDTH))
+  | OHeight => Some (ret (RNum HEIGHT))
+  | OUpdateFrame len => unit_ (update_frame k len)
+  | OUpdatePartial len x y w h => unit_ (update_partial_frame k len x y w h)
+  | ODisplay => unit_ display_frame
+  | OUpdateAndDisplay len => unit_ (update_and_display_frame k len)
+  | OClear => unit_ clear_frame
+  | OSetLut r => unit_ (set_lut r)
+  | OWaitIdle => unit_ wait_until_idle
+  | OUpdateColor l1 l2 => unit_ (update_color_frame (DArg k 0 0 l1) (DArg k 1 0 l2))
+  | OUpdateAchromatic len => unit_ (update_achromatic_frame (DArg k 0 0 len))
+  | OUpdateChromatic len => unit_ (update_chromatic_frame (DArg k 0 0 len))
+  | OUpdatePartial2 len x y w h => unit_ (update_partial_frame2 k len x y w h)
+  | _ => None
+  end.
 
 Definition drv (ft : feat) : driver :=
-  mkDriver WIDTH HEIGHT false d0 init exec.
+  mkDriver WIDTH HEIGHT false (mkD cWhite 0 false false 0 None) init exec.
 End Epd7in5b_v2.
